@@ -41,7 +41,7 @@ pub struct LandCase {
 
 fn land_strat(_: &Ctx) -> BoxedStrategy<LandCase> {
     (2usize..=8)
-        .prop_flat_map(|n| (kt_zero_cfg(6000, 30), proptest::collection::vec(0.0..=1.0f64, n), landscape_strat(n, 0., 1.)))
+        .prop_flat_map(|n| (kt_zero_cfg(6000, 100), proptest::collection::vec(0.0..=1.0f64, n), landscape_strat(n, 0., 1.)))
         .prop_map(|(cfg, init, land)| LandCase { cfg, init, land })
         .boxed()
 }
